@@ -45,7 +45,8 @@ def _has_dtype(call: ast.Call) -> bool:
 def analyse(project: Project, fi: FunctionInfo) -> List[dict]:
     """findings on the function as written and on its helper-inlined view (an array typed by the caller's data may be made in
     one private helper and filled from the result of another)"""
-    out = _analyse(project, fi, fi.node)
+    only = _caller_typed_params(project, fi, ())
+    out = _analyse(project, fi, fi.node, only=only)
     try:
         from .common import fn_view
         view = fn_view(project, fi)
@@ -53,15 +54,74 @@ def analyse(project: Project, fi: FunctionInfo) -> List[dict]:
         view = None
     if view is not None and view is not fi.node:
         seen = {ast.unparse(h["node"]) for h in out}
-        for h in _analyse(project, fi, view):
+        for h in _analyse(project, fi, view, only=only):
             if ast.unparse(h["node"]) not in seen:
                 out.append(h)
     return out
 
 
-def _analyse(project: Project, fi: FunctionInfo, f) -> List[dict]:
+def _call_sites(project: Project, fi: FunctionInfo):
+    """(caller, call) for every call in the package that resolves to the private function `fi`"""
+    cache = getattr(project, "_dt_sites", None)
+    if cache is None:
+        cache = {}
+        for g in project.functions.values():
+            if not isinstance(g.node, (ast.FunctionDef, ast.AsyncFunctionDef)):
+                continue
+            locs = local_names(g.node)
+            for c in ast.walk(g.node):
+                if not isinstance(c, ast.Call):
+                    continue
+                t = project.resolve(g.module, c.func, locs)
+                if t is None and isinstance(c.func, ast.Attribute) and isinstance(c.func.value, ast.Name) \
+                        and c.func.value.id in ("self", "cls") and g.cls is not None:
+                    m = g.cls.lookup(c.func.attr, project)
+                    t = m.qualname if m is not None else None
+                if t is not None:
+                    cache.setdefault(t, []).append((g, c))
+        project._dt_sites = cache
+    return cache.get(fi.qualname, [])
+
+
+def _caller_typed_params(project: Project, fi: FunctionInfo, stack):
+    """For a private helper all of whose uses are calls inside the package: the parameters that receive, at some call site, an
+    array whose dtype is the caller's data.  A parameter that only ever receives arrays the package made itself (a block of the
+    float cost matrix, a table of float literals) is not `the caller's data` although it is a parameter.  None = no
+    restriction (public function, no call site found, a cycle, an argument list that cannot be matched)."""
+    if not fi.name.startswith("_") or fi.name.startswith("__") or not isinstance(fi.node, (ast.FunctionDef, ast.AsyncFunctionDef)):
+        return None
+    if fi.qualname in stack or len(stack) > 6:
+        return None
+    sites = _call_sites(project, fi)
+    if not sites:
+        return None
+    # a helper that is also passed around as a value may be called with anything
+    for g in project.functions.values():
+        for n in ast.walk(g.node):
+            if isinstance(n, ast.Name) and n.id == fi.name and isinstance(n.ctx, ast.Load):
+                par = [c for c in ast.walk(g.node) if isinstance(c, ast.Call) and c.func is n]
+                if not par:
+                    return None
+    a = fi.node.args
+    names = [x.arg for x in a.posonlyargs + a.args]
+    if fi.cls is not None and fi.kind not in ("staticmethod",) and names:
+        names = names[1:]
+    typed = set()
+    for g, c in sites:
+        if any(isinstance(x, ast.Starred) for x in c.args) or any(k.arg is None for k in c.keywords):
+            return None
+        pairs = list(zip(names, c.args)) + [(k.arg, k.value) for k in c.keywords]
+        g_only = _caller_typed_params(project, g, stack + (fi.qualname,)) if g is not fi else None
+        flags = _analyse(project, g, g.node, only=g_only, probe=[e for _, e in pairs])
+        for (nme, _), fl in zip(pairs, flags):
+            if fl:
+                typed.add(nme)
+    return typed
+
+
+def _analyse(project: Project, fi: FunctionInfo, f, only=None, probe=None) -> List[dict]:
     if not isinstance(f, (ast.FunctionDef, ast.AsyncFunctionDef)):
-        return []
+        return [] if probe is None else [True] * len(probe)
     locs = local_names(f)
     a = f.args
     params = [x.arg for x in a.posonlyargs + a.args + a.kwonlyargs]
@@ -72,6 +132,8 @@ def _analyse(project: Project, fi: FunctionInfo, f) -> List[dict]:
     array_params = {p for p in params if p not in ("self", "cls") and p not in float_params
                     and not (p in defaults and isinstance(defaults[p], ast.Constant)
                              and isinstance(defaults[p].value, (int, str, bool)) and defaults[p].value is not None)}
+    if only is not None:
+        array_params &= set(only)
     defs: Dict[str, List[ast.expr]] = {}
     for n in ast.walk(f):
         if isinstance(n, ast.Assign) and len(n.targets) == 1:
@@ -166,6 +228,8 @@ def _analyse(project: Project, fi: FunctionInfo, f) -> List[dict]:
     for nme, vs in defs.items():
         if nme in inherited and nme not in array_params and not any(is_inherited(v) for v in vs):
             inherited.discard(nme)
+    if probe is not None:
+        return [is_inherited(e) for e in probe]
     hits = []
     for n in ast.walk(f):
         if isinstance(n, ast.Assign) and len(n.targets) == 1 and isinstance(n.targets[0], ast.Subscript):
